@@ -28,7 +28,7 @@ CLAIM = ("Each tokenizer state method is translated into (atom -> ops, next stat
          "are checked separately. This decides the transition relation for all states and characters, which no test samples.")
 NOT_DECIDED = ("newline normalisation and surrogate handling in the input stream (C05), correctness of the entity trie's "
                "search (C14 covers the tables), token positions, the character-reference sub-algorithm beyond C14's clauses.")
-MODULES = ["_tokenizer.py", "constants.py", "html5parser.py"]
+MODULES = ["_tokenizer.py", "constants.py", "html5parser.py", "_trie/_base.py", "_trie/py.py", "_trie/__init__.py"]
 
 WS_SET = frozenset("\t\n\x0c ")       # CR never reaches the tokenizer (input stream normalisation)
 NAMEISH = ("name", "attrname")
@@ -263,6 +263,7 @@ def run(ctx):
     r.rule("C02.4", "keyword look-ahead: --, DOCTYPE, PUBLIC, SYSTEM case-insensitive; [CDATA[ exact and only in foreign content; failure ungets", floor=6)
     r.rule("C02.5", "appropriate end tag: case-insensitive comparison with the last tag token's name, requires a token", floor=4)
     r.rule("C02.6", "emission: tag/attribute/doctype names lower-cased; duplicate attributes resolve first-wins", floor=6)
+    r.rule("C02.8", "named references: the trie's longest_prefix tries every shorter prefix in decreasing length", floor=8)
     r.rule("C02.7", "element -> tokenizer state map of the parser equals the standard's", floor=10)
 
     # ---- C02.1
@@ -338,6 +339,10 @@ def run(ctx):
     bulk(ctx, tm)
     lookahead(ctx, tm)
     appropriate(ctx, tm)
+    double_escape_tests(ctx, tm)
+    cdata_terminator(ctx, tm)
+    from . import c14
+    c14.trie_rules(ctx, "C02.8")
     emission(ctx, tm)
     from . import c01
     c01.content_model(ctx)
@@ -447,6 +452,38 @@ def appropriate(ctx, tm):
                 "temporary buffer ASCII case-insensitively (%s)" % (short(s), t, why), detail={"state": short(s)})
 
 
+def cdata_terminator(ctx, tm):
+    """A CDATA section ends at the first `]]>`: the state strips exactly the two brackets before the `>` it has just read."""
+    r = ctx.r
+    t = getattr(tm, "cdata_terminator", None)
+    if t is None:
+        raise AnalysisError("cdataSectionState: terminator test not found")
+    r.idiom("C02.4", t["test_ok"] and t["strip_ok"], "cdata-terminator", "%s:%d" % (REL, t["line"]),
+            "CDATA terminator `if %s: data[-1] = %s` not recognised" % (t["test"], t["strip"]),
+            wrong=[(t["test_ok"] and t["strip_wrong"],
+                    "cdataSectionState ends the section at ]]> but removes %s instead of exactly the two brackets: text such as "
+                    "`a]]]>` loses (or keeps) brackets that belong to the content" % ("`%s`" % t["strip"] if t["strip"] else "nothing"))],
+            detail=t)
+
+
+def double_escape_tests(ctx, tm):
+    """The "is the temporary buffer the string script" tests of the double-escape start / end states: the standard appends the
+    *lower-cased* character to the buffer, so the test is ASCII case-insensitive.  Either the appends in the state fold case
+    or the comparison does."""
+    r = ctx.r
+    if len(tm.tmp_script_tests) < 2:
+        raise AnalysisError("found %d states testing the temporary buffer against 'script' (expected 2)" % len(tm.tmp_script_tests))
+    for s, tests in sorted(tm.tmp_script_tests.items()):
+        node, folded = tests[0]
+        f = ctx.repo.func(REL, "HTMLTokenizer.%s" % s)
+        appends = [n for n in ast.walk(f.node) if isinstance(n, ast.AugAssign) and norm(n.target) == "self.temporaryBuffer"]
+        appends_fold = bool(appends) and all(norm(a.value).endswith((".lower()", ".translate(asciiUpper2Lower)")) for a in appends)
+        r.check("C02.5", folded or appends_fold, "tmp-is-script::%s" % short(s), "%s:%d" % (REL, node.lineno),
+                "%s compares the temporary buffer with 'script' case-sensitively although the buffer holds the characters as "
+                "written: </SCRIPT> or <Script> inside an escaped script comment takes the wrong branch" % short(s),
+                detail={"state": short(s), "comparison_folds": folded, "appends_fold": appends_fold})
+
+
 def emission(ctx, tm):
     r = ctx.r
     f = ctx.repo.func(REL, "HTMLTokenizer.emitCurrentToken")
@@ -519,6 +556,12 @@ def thorough(ctx):
 def mutants():
     from ..selftest import TextMutant as T
     return [
+        T("double-escape-end-case", REL,
+          "            if self.temporaryBuffer.lower() == \"script\":\n                self.state = self.scriptDataEscapedState",
+          "            if self.temporaryBuffer == \"script\":\n                self.state = self.scriptDataEscapedState", "C02.5"),
+        T("cdata-rstrip", REL, "                    data[-1] = data[-1][:-2]", "                    data[-1] = data[-1].rstrip(\"]\")", "C02.4"),
+        T("cdata-strip-one", REL, "                    data[-1] = data[-1][:-2]", "                    data[-1] = data[-1][:-1]", "C02.4"),
+        T("trie-skip-one", "_trie/_base.py", "        for i in range(1, len(prefix) + 1):", "        for i in range(2, len(prefix) + 1):", "C02.8"),
         T("wrong-next-state", REL, "        elif data == \"-\":\n            self.currentToken[\"data\"] += \"--!\"\n            self.state = self.commentEndDashState",
           "        elif data == \"-\":\n            self.currentToken[\"data\"] += \"--!\"\n            self.state = self.commentEndState", "C02.2"),
         T("drop-unget", REL, "            self.tokenQueue.append({\"type\": tokenTypes[\"Characters\"], \"data\": \"<\"})\n            self.stream.unget(data)\n            self.state = self.rcdataState",
